@@ -328,8 +328,11 @@ impl CodeFormatter {
                                 .fmt(else_.as_ref().unwrap());
                         }
                         BracePosition::NewLine => {
+                            // ('else' goes to a line of its own. It may have been there already, so don't repeat the
+                            // newlines in front of it, only the comments.)
                             self.push("\n")
-                                .fmt(tag_else.as_ref())
+                                .fmt_comments(&tag_else.trivia)
+                                .push(&tag_else.data)
                                 .fmt(else_.as_ref().unwrap());
                         }
                     }
@@ -483,21 +486,27 @@ impl CodeFormatter {
     /// Formats a block that comes after something else on the same line (e.g. '.loop 3 {'). Comments between that and the
     /// opening brace are kept in front of the brace.
     fn format_block_with_comments(&mut self, block: &Block) {
-        if let Some(trivia) = &block.lparen.trivia {
+        self.fmt_comments(&block.lparen.trivia);
+        self.format_block(block);
+    }
+
+    /// Formats the comments of some trivia, but not its whitespace and newlines
+    fn fmt_comments(&mut self, trivia: &Option<Box<Located<Vec<Trivia>>>>) -> &mut Self {
+        if let Some(trivia) = trivia {
             for triv in &trivia.data {
                 match triv {
                     Trivia::CStyle(comment) => {
                         self.push_type(ChunkType::Comment, comment);
                     }
                     Trivia::CppStyle(comment) => {
-                        // The rest of the line is a comment, so the brace goes to the next line
+                        // The rest of the line is a comment, so whatever follows goes to the next line
                         self.push_type(ChunkType::Comment, comment).push("\n");
                     }
                     Trivia::Whitespace(_) | Trivia::NewLine => (),
                 }
             }
         }
-        self.format_block(block);
+        self
     }
 
     fn format_block(&mut self, block: &Block) {
